@@ -475,7 +475,9 @@ func diskTwinP1(s *scen.P1Set, start *envfs.FS, o, oa *scen.P1Obs, c *p1Case, r 
 	root := filepath.Join(workerScratch(), fmt.Sprintf("twin1-%d", twinSeq))
 	os.RemoveAll(root)
 	defer os.RemoveAll(root)
+	defer os.RemoveAll(root + "-blob")
 	materialize(root, start.Files)
+	twinSymlink(root, s.Paths)
 	index := filepath.Join(root, s.Index)
 	// run from another directory that holds intact look-alikes of every file of the set under the same names: nothing
 	// may be resolved against the working directory (the decoy directory lies outside root and must stay as it is)
